@@ -40,6 +40,12 @@ type Disk struct {
 	// (Pebble/LevelDB behaviour); default false (Badger/Bolt behaviour).
 	CommitOnError bool
 	updLock sync.Mutex // serialises Update transactions
+	// BulkSetErrorAt >= 0: the n-th (0-based) Set issued inside bulk-write
+	// callbacks from now on fails once with an I/O error (the write batch of a
+	// real engine can refuse an entry: value too large, disk full while
+	// spilling); nothing of that Set is recorded
+	BulkSetErrorAt int
+	bulkSets       int
 }
 
 // Faults is the fault plan of the armed window. Counters restart at Arm().
@@ -59,7 +65,7 @@ var ErrClosed = errors.New("simkv: store closed")
 
 // NewDisk makes an empty disk.
 func NewDisk() *Disk {
-	return &Disk{Faults: Faults{CrashBefore: -1, ErrorAt: -1, Fired: map[string]int{}}}
+	return &Disk{Faults: Faults{CrashBefore: -1, ErrorAt: -1, Fired: map[string]int{}}, BulkSetErrorAt: -1}
 }
 
 // Arm installs a fault plan; the write counter starts at zero.
@@ -312,7 +318,7 @@ func (s *Store) Update(f func(tx kvi.KVTransaction) error) error {
 
 func (s *Store) BulkWrite(f func(bl kvi.KVBulkWrite) error) error {
 	simrt.Yield("simkv:BulkWrite")
-	bw := &bulk{}
+	bw := &bulk{d: s.d}
 	err := f(bw)
 	// Badger and Bolt (the default and the embedded fallback) discard the
 	// batch when the callback reports an error; Pebble and LevelDB commit it
@@ -330,11 +336,25 @@ func (s *Store) BulkWrite(f func(bl kvi.KVBulkWrite) error) error {
 }
 
 type bulk struct {
+	d   *Disk
 	mu  sync.Mutex
 	ops []wop
 }
 
 func (b *bulk) Set(key, value []byte) error {
+	if d := b.d; d != nil {
+		d.mu.Lock()
+		n := d.bulkSets
+		d.bulkSets++
+		hit := d.BulkSetErrorAt >= 0 && n == d.BulkSetErrorAt
+		if hit {
+			d.Faults.Fired["bulk_set_error"]++
+		}
+		d.mu.Unlock()
+		if hit {
+			return ErrInjected
+		}
+	}
 	b.mu.Lock()
 	b.ops = append(b.ops, wop{k: cp(key), v: cp(value)})
 	b.mu.Unlock()
